@@ -223,7 +223,7 @@ func (w *World) enabled() []Action {
 	conns := w.sortedConns()
 	// 1. replies
 	for _, c := range conns {
-		if c.stalled && !w.quiet {
+		if c.stalled && (!w.quiet || c.silentFor) {
 			continue
 		}
 		for _, q := range headBatch(c) {
@@ -345,7 +345,7 @@ func (w *World) chooseAndRun(acts []Action) {
 		}
 	}
 	i := w.tape.Draw(len(cand), weights)
-	w.jl(&journal.Ev{K: journal.KStep, Vb: -1, ID: cand[i].ID, I: int64(i), U: uint64(len(cand))})
+	w.jl(&journal.Ev{K: journal.KStep, Vb: -1, ID: cand[i].ID, I: int64(i), U: uint64(len(cand)), U2: randDraws()})
 	cand[i].Do()
 }
 
@@ -385,7 +385,9 @@ func (w *World) quiesce() {
 	w.jl(&journal.Ev{K: journal.KQuiesce, Vb: -1})
 	w.mu.Lock()
 	for _, c := range w.cl.conns {
-		c.stalled = false
+		if !c.silentFor {
+			c.stalled = false
+		}
 	}
 	for n := range w.cl.silentNodes {
 		delete(w.cl.silentNodes, n)
@@ -414,14 +416,14 @@ func (w *World) quiesce() {
 				break
 			}
 			rem := time.Duration(deadline - w.now())
-			w.jl(&journal.Ev{K: journal.KStep, Vb: -1, ID: "q|adv", U: uint64(len(acts))})
+			w.jl(&journal.Ev{K: journal.KStep, Vb: -1, ID: "q|adv", U: uint64(len(acts)), U2: randDraws()})
 			if rem > w.cfg.AdvEventMax {
 				rem = w.cfg.AdvEventMax
 			}
 			w.advanceUntilEvent(rem)
 			continue
 		}
-		w.jl(&journal.Ev{K: journal.KStep, Vb: -1, ID: "q|" + acts[picked].ID, I: int64(picked), U: uint64(len(acts))})
+		w.jl(&journal.Ev{K: journal.KStep, Vb: -1, ID: "q|" + acts[picked].ID, I: int64(picked), U: uint64(len(acts)), U2: randDraws()})
 		acts[picked].Do()
 		w.tick()
 	}
@@ -602,4 +604,15 @@ func (w *World) faultActions(conns []*Conn) []Action {
 func fatalf(f string, a ...any) {
 	fmt.Fprintf(os.Stderr, "SIMHARNESS: "+f+"\n", a...)
 	os.Exit(3)
+}
+
+// randDraws: how many values the bubble's goroutines have drawn from the runtime's simulator-owned
+// stream (select order, map iteration offsets) so far; journalled per step to localise a divergence.
+var randDrawsFn func() uint64
+
+func randDraws() uint64 {
+	if randDrawsFn == nil {
+		return 0
+	}
+	return randDrawsFn()
 }
